@@ -471,6 +471,16 @@ func runC17(c *core.Case) *core.Result {
 				}
 			}
 			c.Count("resets", 1)
+			// a reset may give the collection a number of its own again: the statement fixes what
+			// is removed, not the numbering
+			for _, name := range cols {
+				if n := b.CollectionNum(name); n != 0 {
+					if other, taken := numToName[n]; taken && other != name {
+						return c.Violation("shared-collection-number", "after ResetCollection(%s) collections %s and %s both have number %d", col, other, name, n)
+					}
+					numToName[n] = name
+				}
+			}
 			// clients of the reset collection start over
 			var keep []*cli
 			for _, o := range clients {
